@@ -7,3 +7,4 @@ package parser
 //@ func ParseTemplateBytes(templateBytes) (nodes, err)
 //@   trusted
 //@   modifies nothing
+//@   ensures err == nil ==> nodes == domOfBytes(templateBytes)
